@@ -8,8 +8,9 @@ TARGETS = ["Base/Num.vo", "Base/Corr.vo", "C02/Model.vo", "C02/Spec.vo", "C02/Co
            "C02/ModelVec.vo", "C02/ProofsVec.vo", "C02/PropsVec.vo",
            "C02/ModelSt.vo", "C02/ProofsSt.vo", "C02/ProofsStNamed.vo", "C02/CorrSt.vo", "C02/PropsSt.vo",
            "C02/ProofsPow.vo", "C02/CorrPow.vo", "C02/PropsPow.vo",
-           "C02/Bodies.vo", "C02/Values.vo", "C02/ProofsBodies.vo", "C02/PropsBodies.vo"]
-PROPS = ["C02/Props.v", "C02/PropsVec.v", "C02/PropsSt.v", "C02/PropsPow.v", "C02/PropsBodies.v"]
+           "C02/Bodies.vo", "C02/Values.vo", "C02/ProofsBodies.vo", "C02/PropsBodies.vo",
+           "C02/ProofsR7.vo", "C02/PropsR7.vo"]
+PROPS = ["C02/Props.v", "C02/PropsVec.v", "C02/PropsSt.v", "C02/PropsPow.v", "C02/PropsBodies.v", "C02/PropsR7.v"]
 CORPUS = os.path.join(vlib.ROOT, "corpus/C02/corpus.jsonl")
 PROPOSED = os.path.join(vlib.ROOT, "corpus/C02/known_findings_proposed.json")
 
@@ -44,6 +45,11 @@ PARTIAL = (
     "exponent with and without derivatives) is regenerated and proved to store the op table's value. "
     "(2f) POW (round 6; Ext.epow, PropsPow.v): on ER every float type computes x^y with the WHOLE special-case table of C99/Go (x^0 = 1 incl. NaN^0, 1^y = 1 incl. 1^NaN and 1^Inf, negative base: integer exponent gives the "
     "integer power with its sign, non-integer gives NaN, 0^y, x^(+-Inf), (+-Inf)^y with the odd-integer rule); the table is tied to EVERY recorded math.Pow call of the run by CorrPow.pow_special_ok (cert_pow.v). "
+    "(2g) INTEGER RECEIVERS MEETING FLOAT OPERANDS (round 7; coq/C02/PropsR7.v, carrier ER): Pow/POW of every receiver with an integer base is the truncation toward zero of "
+    "Ext.epow of the operands' float64 readings (whole special-case table; an out-of-range or non-finite power is the excluded conversion), hence 0 for |x| >= 2 and every negative integral exponent, 1 for base 1 and EVERY exponent, "
+    "trunc(x^n) of the UNtruncated base for a positive non-integral base held in a float operand (2.5^2 = 6, 0.5^-2 = 4); LogAdd/LogSub of an integer receiver with -oo held in a float operand return the other operand as the "
+    "receiver reads it (wrap_k of an integer operand, truncation of a float operand; the infinity is never converted), LogSub(a, -oo) = Set(a) for every receiver and operand; the value of LogAdd/LogSub at every pair of infinities "
+    "and at (+oo, finite) on the float receivers spelled out. "
     "(3) Real64 value path = Float64 value path for every op (every carrier; the concrete SQRT excluded, its two bodies differ); (4) ConvertScalar/ConvertConstScalar yield the "
     "requested registered type holding the getter-converted value; refutations for the known findings. NOT proved: the step from exact reals to "
     "binary64/binary32 rounding (covered per sampled case: bit-exact replay on Coq primitive floats with float32 rounding via "
@@ -269,7 +275,9 @@ def run(ctx):
             pthms = [t for t in pthms if t in ("C02_pow_ext", "C02_pow_negative_base_integer_exponent", "C02_pow_tracking_irrelevant")]
         ctx.cov["print_assumptions"] = vlib.print_assumptions("C02", [("C02.Props", thms), ("C02.PropsVec", vthms),
                                                                       ("C02.PropsSt", sthms), ("C02.PropsPow", pthms),
-                                                                      ("C02.PropsBodies", ["C02_body_logsmoothmax", "C02_body_smoothmax"])], ctx.dir)
+                                                                      ("C02.PropsBodies", ["C02_body_logsmoothmax", "C02_body_smoothmax"]),
+                                                                      ("C02.PropsR7", ["C02_int_pow_negative_exponent", "C02_int_pow_float_base_not_truncated",
+                                                                                       "C02_int_log_scale_neutral_float", "C02_ext_log_scale_infinite_pairs"])], ctx.dir)
     # optional stretch target: agreement with the value table of the C01 model (another builder's file; never the decision)
     if os.path.exists(os.path.join(vlib.COQ, "C01/Model.v")):
         ok2, _ = vlib.coq_make(["C02/AgreeC01.vo"])
